@@ -985,3 +985,19 @@ package gedcom
 //@   oncall IndividualNode.tooOldWarnings do b = len(result)
 //@   oncall IndividualNode.multipleSexesWarnings do c = len(result)
 //@   ensures all: len(result) == a + b + c
+
+// ---------------------------------------------------------------------------
+// C12: list similarity. The greedy assignment takes a pair only when both
+// individuals are still unmatched and marks both (a one-to-one matching,
+// checked per iteration); it stops at the minimum similarity.
+//@ func IndividualNode.Similarity
+//@   only C12
+//@   trusted
+//@   pure
+//@ func IndividualNodes.Similarity
+//@   props C12
+//@   ensures both-empty: implies(len(nodes) == 0 && len(other) == 0, result == 1.0)
+//@   ensures one-empty: implies((len(nodes) == 0) != (len(other) == 0), result == 0.5)
+//@   loop 3 iter takes: len(winners) - old(len(winners)) == ite(s.similarity >= options.MinimumSimilarity && !old(found[s.a]) && !old(found[s.b]), 1, 0)
+//@   loop 3 iter marks: implies(len(winners) > old(len(winners)), found[s.a] && found[s.b] && winners[len(winners)-1] == s)
+//@   loop 3 iter keeps: implies(len(winners) == old(len(winners)), found[s.a] == old(found[s.a]) && found[s.b] == old(found[s.b]))
